@@ -52,9 +52,11 @@ def write_gen(odfdo):
            'Definition gen_letters : list N := %s.\nDefinition gen_digits : list N := %s.\n'
            % (l(c['fa']), l(c['ff']), l(c['fl']), l(c['space']), l(c['nrf']), l(c['letters']), l(c['digits'])))
     ok = ('(* GENERATED: the finite obligations that tie the generated classes to the specification *)\n'
-          'From Coq Require Import List NArith Bool. Import ListNotations.\nRequire Import Names Namesproof Gen_Names.\nLocal Open Scope N_scope.\n'
+          'From Coq Require Import List NArith Bool. Import ListNotations.\nRequire Import Names Namesproof Namesproof2 Gen_Names.\nLocal Open Scope N_scope.\n'
           'Theorem gen_table_name_is_lo : forall s, table_name_ok gen_fa gen_ff gen_fl gen_space s = lo_tab_name_ok gen_space s.\n'
-          'Proof. apply table_name_equiv; vm_compute; reflexivity. Qed.\nPrint Assumptions gen_table_name_is_lo.\n')
+          'Proof. apply table_name_equiv; vm_compute; reflexivity. Qed.\nPrint Assumptions gen_table_name_is_lo.\n'
+          'Theorem gen_range_name_is_lo : forall s, nr_name_ok_fixed gen_letters gen_digits gen_space s = lo_range_name_ok gen_space s.\n'
+          'Proof. apply nr_fixed_equiv; vm_compute; reflexivity. Qed.\nPrint Assumptions gen_range_name_is_lo.\n')
     for name, txt in (('Gen_Names.v', gen), ('Gen_Namesok.v', ok)):
         p = common.TH / name
         if not p.exists() or p.read_text() != txt:
